@@ -296,7 +296,7 @@ var StructTypes = []reflect.Type{
 	T(CN1{}), T(CN2{}), T(NMapHolder{}),
 	T(ManyF{}), T(ManyL{}),
 	T(Node{}), T(FNode{}), T(Ping{}), T(Pong{}), T(ENode{}), T(DeepNil{}),
-	T(MapAndLists{}), T(Wrap{}), T(WrapList{}), T(PtrTime{}), T(Named{}), T(SelfAny{}), T(SelfAnyList{}), T(PtrConts{}), T(MutA{}), T(MutB{}), T(MpKeyStruct{}), T(MutGraph{}), T(NonASCII{}), T(RecConts{}), T(AmpTop{}), T(AmpN{}), T(FloatMix{}), T(Forest{}), T(CaseTwins{}), T(Bags{}), T(PtrNamed{}), T(NonASCIIFirst{}), T(IntMix{}), T(Empty{}), T(NumMaps{}), T(BaseEnt{}), T(PlainEnt{}), T(AccountEnt{}), T(PtrBaseEnt{}), T(Ents{}), T(NamedLists{}), T(StrMix{}), T(TimeMix{}), T(Color{}), T(Pair{}), T(Envelope{}), T(Empty2{}), T(Markers{}), T(UserID{}), T(UserId{}), T(CaseClasses{}), T(Block{}), T(Coded{}),
+	T(MapAndLists{}), T(Wrap{}), T(WrapList{}), T(PtrTime{}), T(Named{}), T(SelfAny{}), T(SelfAnyList{}), T(PtrConts{}), T(MutA{}), T(MutB{}), T(MpKeyStruct{}), T(MutGraph{}), T(NonASCII{}), T(RecConts{}), T(AmpTop{}), T(AmpN{}), T(FloatMix{}), T(Forest{}), T(CaseTwins{}), T(Bags{}), T(PtrNamed{}), T(NonASCIIFirst{}), T(IntMix{}), T(Empty{}), T(NumMaps{}), T(BaseEnt{}), T(PlainEnt{}), T(AccountEnt{}), T(PtrBaseEnt{}), T(Ents{}), T(PtrAccountEnt{}), T(Ents2{}), T(NamedLists{}), T(StrMix{}), T(TimeMix{}), T(Color{}), T(Pair{}), T(Envelope{}), T(Empty2{}), T(Markers{}), T(UserID{}), T(UserId{}), T(CaseClasses{}), T(Block{}), T(Coded{}),
 }
 
 // TypeByName finds a zoo struct type.
@@ -634,6 +634,22 @@ func (AccountEnt) HessianCodecName() string { return "com.example.AccountEnt" }
 type PtrBaseEnt struct {
 	*BaseEnt
 	K int32
+}
+
+// PtrAccountEnt declares a wire name of its own AND embeds a custom-named struct by pointer: with that pointer
+// nil (the zero witness, TypeMapOf) its own name must still be found.
+type PtrAccountEnt struct {
+	*BaseEnt
+	N string
+}
+
+func (PtrAccountEnt) HessianCodecName() string { return "com.example.PtrAccountEnt" }
+
+// Ents2 holds it by pointer, by value and in an interface slot.
+type Ents2 struct {
+	PA *PtrAccountEnt
+	V  PtrAccountEnt
+	L  []interface{}
 }
 
 // Ents holds all of them side by side.
